@@ -94,6 +94,9 @@ fn main() {
             println!("selftest: {} descriptions run twice, {} problems", total, bad);
             std::process::exit(if bad == 0 { 0 } else { 2 });
         }
+        Some("runone") => {
+            std::process::exit(runner::runone(args.get(2).map(|s| s.as_str()).unwrap_or("")));
+        }
         Some("replay") => {
             std::process::exit(minimize::replay(args.get(2).map(|s| s.as_str()).unwrap_or("")));
         }
